@@ -251,6 +251,14 @@ theorem unconstrain_traverses_list (x : Json ν) (xs : List (Json ν)) :
   simp only [makeUnconstrained, muList]
   cases makeUnconstrained x <;> cases muList xs <;> simp [Option.map]
 
+/-- a dict that is not a `Parameter` is rewritten value by value (whatever its keys), a `Parameter`
+dict is handled by the case analysis above and NOT descended into -/
+theorem unconstrain_traverses_dict (kvs : List (String × Json ν)) :
+    makeUnconstrained (.obj kvs) =
+      if strIs "Parameter" (lookup "type" kvs) then paramCase kvs
+      else (muFields kvs).map fun (ys, u, p) => ⟨.obj ys, u, p⟩ := by
+  simp [makeUnconstrained]
+
 /-- non-vacuity: the three annotation kinds in one nested specification (toy numbers: log/logit
 are the identity, so only the bookkeeping is visible) -/
 example : (match makeUnconstrained (ν := Int)
